@@ -228,6 +228,7 @@ def po1(facts, rep):
     total = auto = 0
     nbodies = 0
     from .po_known import KNOWN
+    present_short = {fn_short(b.path) for b in facts.body_list}
     for name, (mod, adt) in MATCHERS.items():
         for b, nb, ia, obs in eng_po.scan(facts, matcher_bodies(facts, mod), KNOWN, field_inv=inv):
             nbodies += 1
@@ -246,6 +247,9 @@ def po1(facts, rep):
                 elif k in AUDIT:
                     used_audit.add(k)
                     rep.audited(rule, k + ('#%d' % seen[k] if seen[k] > 1 else ''), o['where'], AUDIT[k])
+                elif eng_po.orphan_match(k, AUDIT, present_short):
+                    k0 = eng_po.orphan_match(k, AUDIT, present_short)
+                    rep.audited(rule, k, o['where'], 'arithmetic of the removed function %s, now written in its caller: %s' % (k0.split('|')[0], AUDIT[k0]))
                 else:
                     rep.bad(rule, k, o['where'], 'undischarged %s obligation: %s' % (o['kind'], o['detail']))
     rep.floor(rule, 'matcher bodies analysed', nbodies, 15)
